@@ -12,8 +12,8 @@ SAFE_FILTERS = [None, None, "affine", "cumsum", "square"]  # no sparse solve: bi
 
 
 def gen_config(rng, *, kinds=None, scheduler=None, loss_kinds=None, max_params=4, max_bs=3, n_samplers=None, model="plain",
-               max_points=40, ensemble=None, conv=None):
-    P = int(rng.integers(1, max_params + 1))
+               max_points=40, ensemble=None, conv=None, params=None):
+    P = int(rng.integers(1, max_params + 1)) if params is None else int(params)
     sd = G.gen_space(rng, dims=P, max_points=max_points)
     D = int(rng.integers(1, 4)) if model == "plain" else (int(rng.integers(1, 3)) if model == "huge" else 1)
     lk = str(rng.choice(loss_kinds or LOSS_KINDS))
